@@ -146,7 +146,11 @@ def w_l2(w, cfg):
             # exact up to the half-even tie: rhe(z + c) and rhe(z) + c differ (by one) only if z sits exactly on .5 and c is odd
             zu = recA[-1]["z"][i]
             tie = (zu - z3.ToReal(z3.ToInt(zu))) == z3.RealVal(F(1, 2))
-            d = V.to_real(rB["out"][i]) - (V.to_real(rA["out"][i]) + z3.ToReal(c))
+            ob_, oa_ = V.to_z3(rB["out"][i]), V.to_z3(rA["out"][i])
+            if z3.is_int(ob_) and z3.is_int(oa_):
+                d = ob_ - oa_ - c
+            else:
+                d = V.to_real(ob_) - (V.to_real(oa_) + z3.ToReal(c))
             claim = z3.Or(d == 0, z3.And(tie, d >= -1, d <= 1))
         else:
             claim = S.eq(rB["out"][i], rA["out"][n - 1 - i])
